@@ -62,6 +62,8 @@ def rejection_sites(ck: Check, q: str) -> List[str]:
             continue
         if e.kind == "raise":
             t = e.term
+            if t == ("g", "builtin:reraise") or any(c.prov == "handler" for c in e.pc):
+                continue        # passes on (or renames) a failure that was on its way out already: not a refusal of its own
             msg = ""
             if t[0] == "call" and t[2]:
                 a0 = t[2][0]
@@ -230,6 +232,7 @@ def rule_split_agreement(ck: Check, rule: str) -> None:
             else:
                 ck.violated(rule, construct, "a transaction list is split at %s; every sibling site uses [0] for the reward and [1:] for the rest"
                             % desc, where)
+    n_funcs = len(per_func)
     # sites inside a helper that was extracted later belong to the recorded functions that use the helper
     for fn in [f for f in per_func if ck.walker.transparent(f)]:
         ds = per_func.pop(fn)
@@ -240,17 +243,57 @@ def rule_split_agreement(ck: Check, rule: str) -> None:
             # a function that singles out the reward must also process the rest
             ck.violated(rule, "%s: reward without rest" % short(fn),
                         "uses transactions[0] but never transactions[1:] — the non-reward transactions are not processed here", "")
-    ck.expect_count(rule, "constant subscripts of .transactions", n, 11)
+    # (the floor is on functions, not occurrences: slicing once into a local name and using it thrice is the same split)
+    ck.stats["transactions subscripts"] = n
+    ck.expect_count(rule, "functions that split a .transactions list at a constant", n_funcs, 5)
 
 
 # --------------------------------------------------------------------------- R01.9 effect freedom
+def _is_counter(m: Any) -> bool:
+    """a statistics counter: a store to a module-level container of the form X = X + <number> (nothing that depends on the arguments is kept)"""
+    from ..engine.terms import lin_parts
+    ev = m.ev
+    if m.root[0] != "g" or ev.kind != "store" or ev.value is None:
+        return False
+    atoms, _k = lin_parts(ev.value)
+    return set(atoms) == {ev.term} and atoms[ev.term] == 1
+
+
+def worker_of(ck: Check, q: str) -> str:
+    """`def f(a, b): [argument checks that raise]; return _f(a, b)` where _f is a function added after the rule tables were written
+    (typically the recursive part, split off so that the checks run once): the rules about f's result are about _f."""
+    s = ck.summ(q, 0)
+    rets = s.returns()
+    if len(rets) != 1 or rets[0].term[0] != "call" or rets[0].term[1][0] != "g":
+        return q
+    tgt = rets[0].term[1][1]
+    fi = ck.repo.functions.get(tgt)
+    if fi is None or tgt == q or (ck.walker.api is not None and tgt in ck.walker.api) or fi.module is not s.fi.module:
+        return q
+    if rets[0].term[2] != tuple(("v", p_) for p_ in s.fi.params) or rets[0].term[3] or fi.params != s.fi.params:
+        return q
+    if any(e.kind in ("store", "del") for e in s.events if not e.chain):
+        return q
+    ck.note("%s hands its arguments unchanged to %s, added later: analysed in its place" % (short(q), short(tgt)))
+    return tgt
+
+
+def is_counter_store(ev: Event) -> bool:
+    """X = X + <number> for an attribute or module-level name X: a tally (what it counts is the rule's business, not its value)"""
+    from ..engine.terms import lin_parts
+    if ev.kind != "store" or ev.value is None or ev.term[0] not in ("a", "g"):
+        return False
+    atoms, _k = lin_parts(ev.value)
+    return set(atoms) == {ev.term} and atoms[ev.term] == 1
+
+
 def rule_effect_free(ck: Check, rule: str, qualnames: Sequence[str], what: str) -> None:
     for q in qualnames:
         reach: List[str] = []
         muts = collect_mutations(ck.walker, q, set(), reach)
         ck.analysed(*[r for r in reach if not r.startswith("new:")])
         construct = "%s and its %d reachable callees mutate nothing reachable from their arguments" % (short(q), max(len(set(reach)) - 1, 0))
-        bad = [m for m in muts if m.root[0] in ("v", "e", "g")]
+        bad = [m for m in muts if m.root[0] in ("v", "e", "g") and not _is_counter(m)]
         if not bad:
             ck.ok(rule, construct, what, ck.repo.func(q).loc)
         else:
